@@ -188,7 +188,7 @@ func TestC02(t *testing.T) {
 		"that advances only by declared lengths and rejects wrong lengths, missing 8-byte alignment, non-zero padding and codes outside the tables. " +
 		"Non-trivial: >=2 nested elements of different kinds, or a variable-size action, or nesting depth >=3, or a prepend; distinct by hash of the bytes.")
 	c.Assume("the wire model (harness/spec, DESIGN.md Appendix A) is my transcription of the specifications; it is self-tested (Decode(Encode(t))==t) in TestModelSpecSelf",
-		"where my reading of the normative text is uncertain the walker is lenient: padding after a bundled message / bundle property is accepted, not demanded; tun_metadata may be 1..124 bytes")
+		"tun_metadata is variable-width: any payload of 1..124 bytes is accepted; the zero padding after a bundled message and after each bundle property is demanded (ONF EXT-230 / OF1.4 ofp_bundle_add_msg, ofp_bundle_prop_experimenter)")
 	regressC02(t, c)
 	rapid.Check(t, func(rt *rapid.T) {
 		c.Eval()
